@@ -560,3 +560,16 @@ fn write_object<K: Display, V: Display>(
     }
     f.write_char('}')
 }
+
+/// Verification hooks (thin wrappers around private items; compiled only with
+/// the `verif-hooks` feature).
+#[cfg(feature = "verif-hooks")]
+#[doc(hidden)]
+#[allow(missing_docs)]
+pub mod verif_hooks {
+    use std::fmt::{self, Formatter};
+
+    pub fn write_quoted(s: &str, f: &mut Formatter<'_>) -> fmt::Result {
+        super::write_quoted(s, f)
+    }
+}
